@@ -4,7 +4,16 @@ import numpy as np
 from .elgen import CHAN_POOL, Regs, marker_rle
 
 ID = "C14"
-ALLOWED_AXIOMS = []
+ALLOWED_AXIOMS = ["ClassicalDedekindReals.sig_forall_dec", "ClassicalDedekindReals.sig_not_dec",
+                  "FunctionalExtensionality.functional_extensionality_dep"]      # the real-number part (Props/C14n.v) only
+PROPS_FILES = ["C14", "C14n"]
+T_GEN = ["OutputGuardsGen.v"]
+T_FILES = ["Generated/OutputGuardsGen", "Numeric/Rescale", "Props/C14n"]
+
+
+def search_failing_input(ctx):
+    return []          # the generated cases below are the search: their oracle failures are reported with the input
+
 RULE = ("consistent sequences of 1-3 positions and 1-4 channels (blueprints of constant/ramp segments and raw arrays), "
         "dyadic amplitudes > 0 and offsets (zero and non-zero) so that the channel range is exact in binary64; per "
         "(position, channel) the waveform peak is placed inside, exactly at, or one ulp-scale step outside the range; "
